@@ -637,6 +637,23 @@ func (u *Unit) toInt(t Term) Term {
 			}
 			return intConst(vv)
 		}
+		if os.Getenv("GOVC_NOCONG") == "" && !strings.Contains(t.S, "q_") && !strings.Contains(t.S, "p_") {
+			// congruence of the conversion, spelled out pairwise (the solvers do not apply it to bv2nat)
+			for _, y := range u.toIntSeen {
+				if y.T.W == t.T.W && y.S != t.S {
+					u.bridgeFact(fmt.Sprintf("(=> (= %s %s) (= (bv2nat %s) (bv2nat %s)))", t.S, y.S, t.S, y.S))
+				}
+			}
+			dup := false
+			for _, y := range u.toIntSeen {
+				if y.S == t.S {
+					dup = true
+				}
+			}
+			if !dup && len(u.toIntSeen) < 40 {
+				u.toIntSeen = append(u.toIntSeen, t)
+			}
+		}
 		if os.Getenv("GOVC_NORANGE") == "" {
 			// the range of a conversion is a theory fact the solvers are slow to find
 			u.bridgeFact(fmt.Sprintf("(and (<= 0 (bv2nat %[1]s)) (< (bv2nat %[1]s) %[2]s))", t.S, new(big.Int).Lsh(big.NewInt(1), uint(t.T.W)).String()))
